@@ -258,6 +258,35 @@ theorem key_history_wraps_master {Pw MK : Type} (master : MK) (keys : List (KeyE
       · simp at h; exact ⟨s, p, h⟩
     | remove i => exact h0 e (List.mem_of_mem_eraseIdx he)
 
+/-- (9+9') After ANY history of key add / remove commands on a repository with master key `master`: a password opens
+iff a key file generated with it is still present, and what it opens is `master`. -/
+theorem open_after_history {Pw MK : Type} [DecidableEq Pw] (master : MK) (cmds : List (KeyCmd Pw)) (pw : Pw) :
+    let keys := cmds.foldl (applyKeyCmd master) ([] : List (KeyEntry Pw MK))
+    ((∃ m, findKey keys pw = .ok m) ↔ ∃ salt, KeyEntry.good salt pw master ∈ keys) ∧
+    (∀ m, findKey keys pw = .ok m → ∃ salt, KeyEntry.good salt pw master ∈ keys ∧
+      ∀ s' m', KeyEntry.good s' pw m' ∈ keys → m' = master) := by
+  intro keys
+  have hall : ∀ e ∈ keys, ∃ s p, e = KeyEntry.good s p master :=
+    key_history_wraps_master master [] (by intro e he; cases he) cmds
+  have hgood : AllGood keys := by
+    intro e he hm
+    obtain ⟨s, p, rfl⟩ := hall e he
+    cases hm
+  obtain ⟨h1, h2, _⟩ := open_iff_some_key_has_password keys hgood pw
+  have hmaster : ∀ s' m', KeyEntry.good s' pw m' ∈ keys → m' = master := by
+    intro s' m' hm
+    obtain ⟨s, p, heq⟩ := hall _ hm
+    cases heq; rfl
+  refine ⟨⟨?_, ?_⟩, ?_⟩
+  · rintro ⟨m, hm⟩
+    obtain ⟨s, hs⟩ := h1 m hm
+    exact ⟨s, hmaster s m hs ▸ hs⟩
+  · rintro ⟨s, hs⟩
+    exact h2 ⟨s, master, hs⟩
+  · intro m hm
+    obtain ⟨s, hs⟩ := h1 m hm
+    exact ⟨s, hmaster s m hs ▸ hs, hmaster⟩
+
 /-- (9'') A damaged or foreign key file is not skipped: any error other than a MAC failure aborts the search, so a
 malformed file listed before the matching one blocks the correct password (observation replayed on the real code,
 corpus/C04 `keys`; the statement's "only the correct password opens" is unaffected). -/
